@@ -205,8 +205,8 @@ theorem splice_drop_is_the_source (cfg : Cfg) (w : World) (it : RangeIt) (repl :
 /-! ### `drain` and `splice` inside whole histories (Props/Refine.lean) -/
 
 /-- **`drain(a..b)` and `splice(a..b, k new values)` refine `Vec::drain` / `Vec::splice` in every history**: mixed in
-any order with the element-wise and capacity operations, from any world that shows an abstract vector, an unconsumed
-`drain(a..b)` leaves `take a ++ drop b` and an unconsumed `splice(a..b, …)` leaves `take a ++ new values ++ drop b` (for
+any order with the element-wise and capacity operations, from any world that shows an abstract vector, a
+`drain(a..b)` whose items are taken from either end in any pattern (each dropped) leaves `take a ++ drop b` and such a `splice(a..b, …)` leaves `take a ++ new values ++ drop b` (for
 `a ≤ b ≤ len`; otherwise nothing changes but the offered values are destroyed), with the capacity kept when the result
 fits and grown only when it does not; the one alternative is the storage's refusal of the room `splice` asks for, which
 leaves the items before `a` (leak-on-panic). -/
@@ -218,13 +218,13 @@ theorem range_ops_refine_in_histories (cfg : Cfg) (v ty : Nat) (ops : List Refin
 /-- a `splice` whose result fits the capacity has exactly one abstract outcome -/
 theorem splice_that_fits (s s' : Refine.Spec) (a b k : Nat) (hr : a ≤ b ∧ b ≤ s.items.length)
     (hfit : a + k + (s.items.length - b) ≤ s.cap) (hsm : a + k + (s.items.length - b) ≤ USIZE_MAX)
-    (h : Refine.Spec.Step s (.splice a b k) s') :
+    (cs : List End) (h : Refine.Spec.Step s (.splice a b k cs) s') :
     s'.items = s.items.take a ++ List.range' s.next k ++ s.items.drop b ∧ s'.cap = s.cap ∧ s'.next = s.next + k := by
   cases h with
-  | spliceFits _ _ _ _ _ => exact ⟨rfl, rfl, rfl⟩
-  | spliceGrow _ _ _ c _ hover _ _ => omega
-  | spliceRefused _ _ _ _ hover => omega
-  | spliceOut _ _ _ hno => exact (hno hr).elim
+  | spliceFits _ _ _ _ _ _ => exact ⟨rfl, rfl, rfl⟩
+  | spliceGrow _ _ _ c _ _ hover _ _ => omega
+  | spliceRefused _ _ _ _ _ hover => omega
+  | spliceOut _ _ _ _ hno => exact (hno hr).elim
 
 end C02
 end AnyVec
